@@ -5,23 +5,23 @@
   Concrete side: Model/RuleBuilder.lean (header fields + word memory with growth, checked accesses).
   Abstract side: Spec/RuleSpec.lean (head/body lists; `none` = outside the documented protocol).
 
-  FULL STATEMENT (C11_refines): for every operation sequence over
+  FULL STATEMENT, PROVED (`C11_refines`): for every operation sequence over
     start, startMinimize, startBody, startSum, addHead, addGoal, setBound, clearHead, clearBody, clear,
-    weaken, end, copy-construct/assign/swap
-  that the specification accepts, the memory-block model accepts it too, never leaves its block, and after
-  every operation reports exactly the specification's rule.
-  PROVED HERE (C11_refines_partial): the statement for the operations
-    start, startMinimize, startBody, startSum, addHead, addGoal, setBound, end, clear (reuse after end included).
-  MISSING: clearHead, clearBody, weaken and copy/assign/swap between builders — these are decided only by the
-  correspondence run (model vs. real code vs. specification on generated histories), not by a theorem.
+    weaken (to any body type, with or without resetting the weights), end, copy
+  that the specification accepts, the memory-block model accepts it too (no POTASSCO_ASSERT fires), never leaves its
+  block, and after every operation reports exactly the specification's rule — whatever the initial capacity of the block.
+  `copy` replaces the builder by a copy of itself (`mem_.grow(top); memcpy`): this is copy construction and assignment as seen
+  by one builder; swapping two builders exchanges two states of the model and adds no behaviour of its own.
 -/
-import PotasscoVerif.Lemmas.RuleBuilder
+import PotasscoVerif.Lemmas.RuleBuilder2
 namespace PotasscoVerif.C11
 open PotasscoVerif.RuleBuilder PotasscoVerif.RuleSpec
 
 inductive Op where
   | start (ht : Nat) | startMinimize (prio : Int) | startBody | startSum (bound : Int)
   | addHead (a : Int) | addGoal (lit w : Int) | setBound (b : Int) | end_ | clear
+  | clearHead | clearBody | weaken (to : Nat) (resetWeights : Bool)
+  | copy          -- the builder is replaced by a copy of itself (copy construction / assignment: `mem_.grow(top); memcpy(top bytes)`)
 deriving Repr, DecidableEq
 
 def stepC (c : RB) : Op → Option RB
@@ -34,6 +34,10 @@ def stepC (c : RB) : Op → Option RB
   | .setBound b => c.setBound b
   | .end_ => some c.end_
   | .clear => some c.clear
+  | .clearHead => some c.clearHead
+  | .clearBody => some c.clearBody
+  | .weaken to w => c.weaken to w
+  | .copy => some c.copy
 
 def stepA (a : AR) : Op → Option AR
   | .start ht => a.start ht
@@ -45,6 +49,10 @@ def stepA (a : AR) : Op → Option AR
   | .setBound b => a.setBound b
   | .end_ => some a.end_
   | .clear => some AR.init
+  | .clearHead => a.clearHead
+  | .clearBody => a.clearBody
+  | .weaken to w => a.weaken to w
+  | .copy => some a
 
 def runC : RB → List Op → Option RB
   | c, [] => some c
@@ -66,6 +74,10 @@ theorem step_ref {c a a'} (h : R c a) (op : Op) (hs : stepA a op = some a') :
   | setBound b => exact setBound_ref h b hs
   | end_ => simp only [stepA, Option.some.injEq] at hs; subst hs; exact ⟨_, rfl, end_ref h⟩
   | clear => simp only [stepA, Option.some.injEq] at hs; subst hs; exact ⟨_, rfl, R_clear h⟩
+  | clearHead => exact ⟨_, rfl, clearHead_ref h hs⟩
+  | clearBody => exact ⟨_, rfl, clearBody_ref h hs⟩
+  | weaken to w => exact weaken_ref h to w hs
+  | copy => simp only [stepA, Option.some.injEq] at hs; subst hs; exact ⟨_, rfl, copy_ref h⟩
 
 theorem run_ref : ∀ (ops : List Op) {c a a'}, R c a → runA a ops = some a' → ∃ c', runC c ops = some c' ∧ R c' a' := by
   intro ops
@@ -88,13 +100,13 @@ def initN (n : Nat) : RB := { mem := { data := List.replicate n 0 } }
 theorem R_initN (n : Nat) : R (initN n) AR.init := by
   refine ⟨rfl, rfl, ?_, ?_, ?_, ?_, ?_, ?_, ?_, ?_, ?_, ?_, ?_⟩ <;> simp [initN, AR.init, HDR, Mem.size]
 
-/-- **C11 (partial, see the header).** Whatever protocol-conforming sequence of the listed operations is
+/-- **C11.** Whatever protocol-conforming sequence of the listed operations is
     applied to a fresh builder — of any length, with any atoms, literals, weights and bounds, and whatever
     the initial capacity of its block — the memory-block model accepts it (no `POTASSCO_ASSERT` fires), no
     access leaves the block (`viol = false`, `viewOk`), and the rule it reports / passes on at `end` is
     exactly the rule of the list specification.  Applied to every prefix of a history this is the statement
     "after every operation". -/
-theorem C11_refines_partial (n : Nat) (ops : List Op) (a' : AR) (hs : runA AR.init ops = some a') :
+theorem C11_refines (n : Nat) (ops : List Op) (a' : AR) (hs : runA AR.init ops = some a') :
     ∃ c', runC (initN n) ops = some c' ∧ c'.view = a'.view ∧ c'.viewOk = true ∧ c'.viol = false := by
   obtain ⟨c', hc', h'⟩ := run_ref ops (R_initN n) hs
   exact ⟨c', hc', (view_ref h').1, (view_ref h').2, h'.noviol⟩
@@ -103,8 +115,8 @@ theorem C11_refines_partial (n : Nat) (ops : List Op) (a' : AR) (hs : runA AR.in
     how often the block is reallocated. -/
 theorem C11_growth_independent (n m : Nat) (ops : List Op) (a' : AR) (hs : runA AR.init ops = some a') :
     ∃ c₁ c₂, runC (initN n) ops = some c₁ ∧ runC (initN m) ops = some c₂ ∧ c₁.view = c₂.view := by
-  obtain ⟨c₁, h₁, v₁, _, _⟩ := C11_refines_partial n ops a' hs
-  obtain ⟨c₂, h₂, v₂, _, _⟩ := C11_refines_partial m ops a' hs
+  obtain ⟨c₁, h₁, v₁, _, _⟩ := C11_refines n ops a' hs
+  obtain ⟨c₂, h₂, v₂, _, _⟩ := C11_refines m ops a' hs
   exact ⟨c₁, c₂, h₁, h₂, v₁.trans v₂.symm⟩
 
 /-- the production configuration: `RuleBuilder()` starts with a 64-byte block. -/
@@ -117,16 +129,21 @@ def exOps : List Op :=
   [.start 1, .addHead 5, .addHead 6, .startSum 3, .addGoal (-2) 2, .addGoal 3 0, .addGoal 4 1, .addGoal 7 1,
    .addGoal 8 1, .addGoal 9 1, .addGoal 10 1, .setBound 4, .end_,
    .startMinimize (-1), .addGoal 1 (-5), .addGoal (-2) 7, .end_, .clear,
-   .startBody, .addGoal 1 1, .addGoal (-2) 1, .start 0, .addHead 2147483647, .end_]
+   .startBody, .addGoal 1 1, .addGoal (-2) 1, .start 0, .addHead 2147483647, .end_,
+   .startSum 5, .addGoal 1 2, .addGoal (-2) 4, .start 0, .addHead 9, .copy, .weaken 2 true, .clearHead, .start 1, .addHead 3, .addHead 4,
+   .weaken 0 false, .clearBody, .addGoal 7 1, .copy, .end_]
 
 example : (runA AR.init exOps).map AR.view =
-    some { ht := 0, head := [2147483647], bt := 0, bound := -1, body := [(1, 1), (-2, 1)] } := by decide
+    some { ht := 1, head := [3, 4], bt := 0, bound := -1, body := [(7, 1)] } := by decide +kernel
 
 example : (runC RB.init exOps).map RB.view =
-    some { ht := 0, head := [2147483647], bt := 0, bound := -1, body := [(1, 1), (-2, 1)] } := by decide +kernel
+    some { ht := 1, head := [3, 4], bt := 0, bound := -1, body := [(7, 1)] } := by decide +kernel
+
+/-- the intermediate rule after `weaken 2 true` in that history: bound ceil(5/2) = 3, weights 1 -/
+example : (runA AR.init (exOps.take 31)).map AR.view = some { ht := 0, head := [9], bt := 2, bound := 3, body := [(1, 1), (-2, 1)] } := by decide +kernel
 
 /-- head-first and body-first descriptions of the same rule give the same rule (instance; the general
-    statement follows from `C11_refines_partial` because both orders are accepted by the specification). -/
+    statement follows from `C11_refines` because both orders are accepted by the specification). -/
 example : (runA AR.init [.start 1, .addHead 5, .startSum 2, .addGoal 3 4]).map AR.view =
           (runA AR.init [.startSum 2, .addGoal 3 4, .start 1, .addHead 5]).map AR.view := by decide
 
